@@ -15,6 +15,19 @@ type RenameObject struct {
 }
 
 func (pass *RenameObject) Process(schemas []*ast.Schema) ([]*ast.Schema, error) {
+	// nothing to rename (and no reference to rewrite) if the object doesn't exist.
+	found := false
+	for _, schema := range schemas {
+		schema.Objects.Iterate(func(_ string, object ast.Object) {
+			if pass.From.Matches(object) {
+				found = true
+			}
+		})
+	}
+	if !found {
+		return schemas, nil
+	}
+
 	visitor := &Visitor{
 		OnObject:      pass.processObject,
 		OnRef:         pass.processRef,
